@@ -11,10 +11,16 @@ def ostep (s : OState) : OOp → OState × Option Bool
   | .should t => let (s, b) := openerI.shouldOpen s t; (s, some b)
   | .cfgH p v => ((match s with | .hystrix o => .hystrix { o with pct := p, vol := v } | s => s), none)
   | .cfgC t => ((match s with | .consec o => .consec { o with threshold := t } | s => s), none)
+  | .view t => ((match s with | .hystrix o => .hystrix (o.view t) | s => s), none)
 
 def orun (s : OState) : List OOp → List (Option Bool)
   | [] => []
   | op :: ops => let (s', o) := ostep s op; o :: orun s' ops
+
+/-- what the view shows after `view t` took effect: rolling errors, rolling attempts, the two ring positions -/
+def oviewOut : OState → String
+  | .hystrix o => s!"e={o.errors.rolling} a={o.attempts.rolling} last={o.errors.last},{o.attempts.last}"
+  | _ => "ok"
 
 def oexec (s : OState) (ops : List OOp) : OState := ops.foldl (fun s op => (ostep s op).1) s
 
